@@ -4,6 +4,9 @@ CONSTANTS
   MaxDepth = 2
   MaxRoots = 1
   RootFilter = {"users", "user", "allPets", "nestedType", "recursiveType", "search", "performAction", "testContainers", "nullableFieldsType", "createUser", "blogPost"}
+  FieldFilter = {}
+  MaxReval = 0
   Mut = "none"
 SPECIFICATION GenSpec
+
 CHECK_DEADLOCK FALSE
